@@ -1,6 +1,7 @@
 import Alpen.Generated
 import Alpen.Model.Reserve
 import Alpen.Lemmas.Reserve
+import Alpen.Lemmas.Transport
 /-!
 # C14 — space reservations are balanced and never over-committed
 
@@ -91,6 +92,66 @@ theorem C14_legacy_leak :
   refine ⟨[.dispatch 1 5 false false (some 100), .finish 1 .alreadyPresent], ?_, ?_⟩
   · simp [FreshIds]
   · decide
+
+/-- **Transport groups**: asking every node of the group whether the file fits reserves nothing; the node the request
+    is handed to admits the pull and reserves exactly factor × size, every other node of the group is left as it was; and
+    when no node is chosen nothing changes at all.  (Node ids are distinct.) -/
+theorem C14_transport_dispatch (factor size : Nat) (srcLocal : Bool) (nodes : List TGNode)
+    (hd : (nodes.map (·.id)).Nodup) :
+    (∀ i, (tgDispatch factor size srcLocal nodes).1 = some i →
+        (tgDispatch factor size srcLocal nodes).2.1 = true ∧
+        ∃ n ∈ nodes, n.id = i ∧ n.underMin = false ∧ n.overMax = false ∧
+          (∀ b, n.bavail = some b → (size * factor : Nat) ≤ b - n.reserved) ∧
+          (tgDispatch factor size srcLocal nodes).2.2 =
+            nodes.map (fun m => if m.id == i then { m with reserved := m.reserved + (size * factor : Nat) } else m)) ∧
+    ((tgDispatch factor size srcLocal nodes).1 = none → (tgDispatch factor size srcLocal nodes).2 = (false, nodes)) := by
+  constructor
+  · intro i h
+    unfold tgDispatch at h ⊢
+    cases hp : transportPick srcLocal (nodes.map (TGNode.view factor size)) with
+    | none => simp [hp] at h
+    | some j =>
+      simp only [hp] at h ⊢
+      have hji : i = j := by simpa using h.symm
+      subst hji
+      obtain ⟨_, v, hv, hid, hel, _⟩ := (C05_transport_pick_sound srcLocal _ i hp)
+      obtain ⟨n, hn, rfl⟩ := List.mem_map.mp hv
+      have hum : n.underMin = false := by
+        unfold TNode.eligible TGNode.view at hel; cases h1 : n.underMin <;> simp_all
+      have hom : n.overMax = false := by
+        unfold TNode.eligible TGNode.view at hel; cases h1 : n.overMax <;> simp_all
+      have hfit : (reserveBytes factor n.bavail n.reserved size true).1 = true := by
+        unfold TNode.eligible TGNode.view at hel; simp_all
+      have hadm : (pullAdmit factor n.underMin n.overMax n.bavail n.reserved size).1 = true := by
+        unfold pullAdmit; rw [hum, hom]; simp only [Bool.false_eq_true, if_false]
+        unfold reserveBytes at hfit ⊢
+        cases hb : n.bavail with
+        | none => simp
+        | some b => simp only [hb] at hfit ⊢; split <;> simp_all
+      have hspec := pullAdmit_ok factor n.underMin n.overMax n.bavail n.reserved size hadm
+      have hidn : n.id = i := by simpa [TGNode.view] using hid
+      refine ⟨?_, n, hn, hidn, hum, hom, hspec.2.2.1, ?_⟩
+      · apply List.any_eq_true.mpr
+        exact ⟨n, hn, by simp [hidn, TGNode.pull, hadm]⟩
+      · apply List.map_congr_left
+        intro m hm
+        by_cases hmj : m.id = i
+        · have : m = n := by
+            have := eq_of_nodup_map (·.id) nodes hd m n hm hn (by rw [hmj, hidn])
+            exact this
+          subst this
+          simp [hmj, TGNode.pull, hspec.2.2.2]
+        · simp [hmj]
+  · intro h
+    unfold tgDispatch at h ⊢
+    cases hp : transportPick srcLocal (nodes.map (TGNode.view factor size)) with
+    | none => rfl
+    | some j => simp [hp] at h
+
+example : tgDispatch 2 10 true [⟨1, some 500, false, false, some 100, 0⟩, ⟨2, some 100, false, false, some 30, 15⟩,
+    ⟨3, some 300, false, false, some 100, 4⟩] =
+    (some 3, true, [⟨1, some 500, false, false, some 100, 0⟩, ⟨2, some 100, false, false, some 30, 15⟩,
+      ⟨3, some 300, false, false, some 100, 24⟩]) := by decide
 
 -- non-vacuity
 example : (rrun 2 RState.init [.dispatch 1 5 false false (some 100), .dispatch 2 7 false false (some 100),
